@@ -1,4 +1,6 @@
 import Orca.Lemmas.Ops
+import Orca.Gen.ApiOutline
+import Orca.Model.ApiOutlineSpec
 import Orca.Lemmas.Redirect
 /-!
 # C10 — replacing an import with a built function redirects all its uses
@@ -89,3 +91,11 @@ example :
      | _ => []) = [(100, some 9), (200, some 9), (201, some 7)] := by decide
 
 end Orca.Edit
+
+/-- **The tie to the source (regenerated on every run).** The control-and-call skeletons of the functions this property rests on:
+    `replace_import_in_module_with_tag` and `convert_import_fn_to_local` — which import entry is marked, which type the new function takes, what it is named — are what M2's replacement was transcribed from. A step moved, an early exit, guard, call or assignment added or removed breaks this obligation; renaming, comments and
+    formatting do not. -/
+theorem c10_replacement_code_reviewed :
+    Orca.Gen.ApiOutline.convert_import_fn_to_local = Orca.ApiOutlineSpec.convert_import_fn_to_local
+    ∧ Orca.Gen.ApiOutline.replace_import_in_module_with_tag = Orca.ApiOutlineSpec.replace_import_in_module_with_tag :=
+  ⟨rfl, rfl⟩
